@@ -14,7 +14,7 @@ from laneflow import rulelib as L
 from laneflow.build import K, P as Par, Cfg, DEFAULT
 from laneflow.poly import Poly
 
-HDR = ('glm/glm.hpp', 'glm/ext.hpp', 'glm/ext/matrix_integer.hpp')
+HDR = ('glm/glm.hpp', 'glm/ext.hpp', 'glm/ext/matrix_integer.hpp', 'glm/ext/matrix_common.hpp')
 CFG = Cfg('default', headers=HDR)
 
 
@@ -287,6 +287,20 @@ def gtx_cases(T, Q, sc, V, M, A, zero, one, mod, tg):
         k = K('colMajor%d_m_%s' % (n, tg), [Par('o', tm_, False), Par('m', tm_)], '*o = colMajor%d(*m);' % n, cfg)
         cs.append(poly_case('colMajor%d(mat)<%s>' % (n, tg), k, tm_, lambda lane, t=tm_: L.in_term('m', t, lane), 'gtx_matrix', None))
     if fl:
+        # ext/matrix_common: mix with a scalar and with a matrix interpolant is the element-wise x*(1-a) + y*a (they are written with the
+        # element-wise operators and matrixCompMult of this property)
+        S = lambda: L.in_atom('s', sc, 0, mod)
+        for (Cc, Rr), tm_ in M.items():
+            k = K('mix_s_%s_%s' % (tm_.tag, tg), [Par('o', tm_, False), Par('a', tm_), Par('b', tm_), Par('s', sc)], '*o = mix(*a, *b, *s);', cfg)
+            cs.append(poly_case('mix(mat%dx%d,scalar)<%s>' % (Cc, Rr, tg), k, tm_,
+                                lambda l, t=tm_: A('a', t, l) * (one - S()) + A('b', t, l) * S(), 'matrix_common', None))
+            k = K('mix_m_%s_%s' % (tm_.tag, tg), [Par('o', tm_, False), Par('a', tm_), Par('b', tm_), Par('w', tm_)], '*o = mix(*a, *b, *w);', cfg)
+            cs.append(poly_case('mix(mat%dx%d,mat)<%s>' % (Cc, Rr, tg), k, tm_,
+                                lambda l, t=tm_: A('a', t, l) * (one - A('w', t, l)) + A('b', t, l) * A('w', t, l), 'matrix_common', None))
+            k = K('abs_%s_%s' % (tm_.tag, tg), [Par('o', tm_, False), Par('a', tm_)], '*o = abs(*a);', cfg)
+            cs.append(poly_case('abs(mat%dx%d)<%s>' % (Cc, Rr, tg), k, tm_,
+                                lambda l, t=tm_: (lambda a_: tm.select(tm.fcmp('ole', tm.zeros(sc.elem * 8), a_), a_, tm.fneg(a_)))(L.in_term('a', t, l)),
+                                'matrix_common', None))      # GLM's abs: x >= 0 ? x : -x, per element
         # matrixCross3(x) * v == cross(x, v) ;  the definition: M[c][r] = sum_k eps(r,k,c)... written out
         def cross_mat(lane, n):
             c, r = lane
